@@ -84,9 +84,7 @@ CLAIMED = {
     "C02": ("Proof, under a rely condition in which other agents may advance the pointer between any two metadata reads, that each "
             "read API obtains its file list from exactly ONE metadata read (one pointer read -> immutable metadata -> immutable "
             "manifests), reads every file of that list once (path de-duplication), and applies one filter engine. A two-read race "
-            "found by this obligation was repaired in /repo (53d4131). Atomic visibility of multi-operation transactions and "
-            "monotonicity of successive reads rest on 'at most one pointer flip per commit, versions only advance' (C01), stated "
-            "here as an assumption until C01's obligations are discharged.",
+            "found by this obligation was repaired in /repo (53d4131). Atomic visibility of multi-operation transactions (one commit, one flip) and monotonicity of successive reads (lemma MONO over the WRITABLE/LIN obligations of MetadataManager.commit, both re-run here) are discharged in this run.",
             "Trusted: R_immut (files of retained snapshots are immutable, uuid-named files never reused - the guarantee side is C09), "
             "T-store, T-arrow. Real parallel execution is represented by environment steps at metadata reads only (reads of immutable "
             "files commute with every other agent's action).",
@@ -128,9 +126,8 @@ CLAIMED = {
             "raise leaves the pointer unwritten, the lock is released on every path; and of DERIVE/RETRY: every attempt of "
             "Transaction.commit re-reads its base, _commit_file_ops derives snapshot id, parent (= base.current), sequence number "
             "(= base.last+1), carried-over/rewritten/new manifests from that same base object and commits against it, all "
-            "operations of a transaction go into one commit. Serializability of whole histories follows by the stated lemma SER.",
-            "Trusted: T-flock (kernel lock), T-store, A-uuid, RLock for shared handles; lemma SER is a meta-argument over the "
-            "discharged contracts, not a solver obligation; real parallel execution is represented by environment steps at "
+            "operations of a transaction go into one commit. Serializability of whole histories: lemma SER is discharged as an SMT obligation whose hypotheses are the named LIN/STAMP/DERIVE/WRITABLE obligations of this run (the runner refuses the lemma when one of them is missing or undecided).",
+            "Trusted: T-flock (kernel lock), T-store, A-uuid, RLock for shared handles; lemma SER is proved over an abstract vocabulary (flip index, version ids, stamps); that its hypothesis formulas faithfully restate the cited obligations is read, not proved; real parallel execution is represented by environment steps at "
             "storage-action granularity; exhaustion of 50 retries is covered only as 'raises and nothing reflected'.",
             "DESIGN.md 4/C01"),
     "C19": ("Proof of the action contracts of both lock implementations: FileLock._try_acquire_once/acquire return True only after a "
@@ -141,8 +138,7 @@ CLAIMED = {
             "etag, renewal by If-Match on the own etag with loss detection, is_held True only for own content read in that very "
             "call (under an environment that may change the lock object at every request boundary). REL-S3 (release deletes only "
             "its own lock) is refuted and carried as a known finding.",
-            "Trusted: T-flock (kernel), T-s3 conditional PUT, A-clock (S3 LastModified vs local clock), lemma EXCL as a meta-argument "
-            "over the action contracts; real multi-process stress is outside this technique; the polling provider (no conditional "
+            "Trusted: T-flock (kernel), T-s3 conditional PUT, A-clock (S3 LastModified vs local clock), lemma EXCL discharged as SMT obligations over the action contracts (one owner per instant, takeover only of a lapsed un-renewed lease, superseded holder observes the loss); T-s3 ETag = function of the content; real multi-process stress is outside this technique; the polling provider (no conditional "
             "writes) is excluded by the property itself.",
             "DESIGN.md 4/C19"),
     "C06": ("Rely/guarantee decomposition, each side proved per function: (GUAR-tx) Transaction._register_inflight, append_data and "
@@ -154,9 +150,8 @@ CLAIMED = {
             "of reachable and protected sets to both delete passes, sweeps abandoned markers only after reachability succeeded; "
             "_load_inflight_protection puts every fresh listed marker's target into the protection set and deletes nothing. "
             "The read-order obligation was refuted on the pinned tree (stale metadata + already-removed marker => committed file "
-            "deleted), reproduced natively and repaired in /repo (84ee3f9). The step from these contracts to 'no interleaving "
-            "deletes a referenced file' is lemma STABLE, a stated meta-argument; the interleavings themselves are not enumerated.",
-            "Trusted: lemma STABLE and A-clock (grace period exceeds the run; collector and writers agree on mtimes; transactions "
+            "deleted), reproduced natively and repaired in /repo (84ee3f9). The step from these contracts to 'no interleaving deletes a referenced file' is lemma STABLE, discharged as an SMT obligation over instants (marker written / file written / commit point / marker removed; markers observed / metadata read / delete) whose hypotheses are the named obligations of this run; a sanity obligation shows the conclusion fails with the two collector reads swapped. Interleavings are not enumerated.",
+            "Trusted: faithful restatement of the cited obligations inside lemma STABLE, A-clock (grace period exceeds the run; collector and writers agree on mtimes; transactions "
             "older than the 24 h abandonment timeout are out of scope), T-store, T-codec. Bounded stand-in shipped as replay (not "
             "counted as proved): one writer commit/rollback scheduled before each of the collector's storage operations; collector "
             "run inside a writer's conflict back-off.",
@@ -171,8 +166,7 @@ CLAIMED = {
             "(rollback deletes only the transaction's own files), and the collector's DELETE-SAFE/REACH-ALL (every retained "
             "snapshot's files are in the reachable set). BY-TS failed on the pinned tree for clocks that step back between "
             "commits; reproduced natively and repaired in /repo (769b67c).",
-            "Trusted: lemma IMMUT (composition of the per-function contracts into 'content of a retained snapshot never changes', "
-            "a meta-argument), A-uuid, T-forest list semantics, T-codec. 'Identical row content after every step' is not executed "
+            "Trusted: faithful restatement inside lemma IMMUT (discharged as SMT obligations: creating a never-used name or deleting a file outside the retained reachable set changes no retained file), A-uuid, T-forest list semantics, T-codec. 'Identical row content after every step' is not executed "
             "symbolically; the thorough tier's history scenarios (bounded) re-read snapshots on the real code.",
             "DESIGN.md 4/C09"),
     "C15": ("Proof that every metadata mutator preserves the well-formedness invariant WF over snapshot lists and logs of unbounded "
@@ -198,9 +192,8 @@ CLAIMED = {
             "id) to initialize_table, swallows TableExistsError only and lets storage failures out; _resolve_table_schema returns "
             "the persisted current non-empty schema (loop invariants, unbounded schema list); append_data without a schema "
             "argument writes with the resolved schema and raises ValueError before touching storage when there is none. "
-            "'Exactly one initialisation among concurrent creators' follows by lemma ONE-INIT from these contracts plus the "
-            "exclusion contracts of C19/C08; interleavings are not enumerated.",
-            "Trusted: lemma ONE-INIT (meta-argument), T-flock / T-s3 create-if-absent, A-ctor (manager constructors do not touch "
+            "'Exactly one initialisation among concurrent creators' is lemma ONE-INIT, discharged as SMT obligations (local: non-overlapping lock sections + check inside the lock; CAS: create-if-absent) over the cited NO-REINIT obligations; interleavings are not enumerated.",
+            "Trusted: faithful restatement inside lemma ONE-INIT, T-flock / T-s3 create-if-absent, A-ctor (manager constructors do not touch "
             "storage), T-store. The thorough tier's scenario (bounded) races six creators and re-creates over lost / garbage "
             "pointers on the real code.",
             "DESIGN.md 4/C18"),
@@ -227,10 +220,9 @@ CLAIMED = {
             "the pointer write only fresh uuid-named files are created, behind their markers), POST-CP (after it only markers are "
             "removed), GC-PREFIX (every single delete of a collection is for a file outside every retained snapshot's reachable "
             "set and the protection set, so every prefix of a collection is safe), RECOVER/INIT (reopening resolves the pointer "
-            "or recovers among metadata-file names only; creation writes the metadata before the pointer). Lemma CRASH (stated "
-            "meta-argument) composes them into 'pre- or post-state, post only if the pointer was advanced'. The case 'orphan "
+            "or recovers among metadata-file names only; creation writes the metadata before the pointer). Lemma CRASH (SMT obligations: the store invariant Reach(pointer) subset Files is preserved by every action kind under the cited contracts) composes them into 'pre- or post-state, post only if the pointer was advanced'. The case 'orphan "
             "version + lost pointer' is the known finding shared with C10.",
-            "Trusted: lemma CRASH, T-os (rename atomic; fsynced-then-renamed file complete), T-store, T-codec; power loss needs "
+            "Trusted: faithful restatement of the cited obligations inside lemma CRASH, T-os (rename atomic; fsynced-then-renamed file complete), T-store, T-codec; power loss needs "
             "C16's durable reading of fsync in addition. BOUNDED, not counted as proved: fork-and-kill sweep - a child process "
             "runs create / append / multi-op / file delete / expire / delete-snapshot / collection and is killed with os._exit at "
             "its k-th storage system call for every k (380 crash points), the parent checks pre/post state, readability of every "
